@@ -31,8 +31,6 @@ def corpus():
     """hand-written declarations; the exemplar of every known finding comes first"""
     P, S, F = G.prim, G.struct, G.field
     out = []
-    # D-gen-1 duplicate ids: an explicit id collides with an earlier sequential one
-    out.append(S("C1Dup", [F("a", P("u8")), F("b", P("u16")), F("c", P("u32"), id=1)], "mutable"))
     # D-gen-2 explicit id in a final / appendable struct is ignored
     out.append(S("C2Ign", [F("a", P("u8"), id=10), F("b", P("i32"))], "appendable"))
     # D-gen-3 enum literals are not published
@@ -51,6 +49,32 @@ def corpus():
     out.append(S("C9Bare", [F("o", G.opt(P("u8")))]))
     out.append(S("C10Ids", [F("a", P("u8"), id=5), F("b", P("u8")), F("c", P("u8"), id=2), F("d", P("u8"))], "mutable"))
     return out
+
+
+def rejected_corpus():
+    """declarations the macro must REJECT at compile time (D-gen-1 repaired: a repeated member id is an error)"""
+    P, S, F = G.prim, G.struct, G.field
+    return [
+        S("C1Dup", [F("a", P("u8")), F("b", P("u16")), F("c", P("u32"), id=1)], "mutable"),       # explicit id = an earlier sequential id
+        S("C1Dup2", [F("a", P("u8"), id=5), F("b", P("u16"), id=4), F("c", P("u32"))], "mutable"),   # sequential id runs into an earlier explicit one
+    ]
+
+
+def has_duplicate_ids(t):
+    found = []
+    def fn(x):
+        if x["k"] == "struct":
+            ids = G.code_ids(x)
+            if len(set(ids)) != len(ids):
+                found.append(x["ident"])
+    G.walk(t, fn)
+    return bool(found)
+
+
+def reject_rs(t):
+    items = []
+    G.rust_decls(t, set(), items)
+    return ("#![allow(warnings)]\nuse dust_dds::infrastructure::type_support::DdsType;\n" + "\n".join(items) + "\nfn main() {}\n")
 
 
 def corpus_values(g, t):
@@ -137,6 +161,8 @@ def make_cases(ctx, g, n, with_corpus):
                 decls.append((t, [g.val(t, 0), g.val(t, 1), g.val(t, 2)]))
             else:
                 ctx.count("dropped:model-says-unsupported")
+                if has_duplicate_ids(t) and len(ctx.gen_rejects) < 3:
+                    ctx.gen_rejects.append(t)
     cases = [Case(G.derive_case_lines(i, t, vals), {"decl": t}) for i, (t, vals) in enumerate(decls)]
     return decls, cases
 
@@ -178,26 +204,48 @@ def run(ctx):
     n = N_QUICK if ctx.tier == "quick" else N_THOROUGH
     for c in range(ncrates):
         g = G.DeriveGen(ctx.rng, prefix=f"T{c}x")
+        ctx.gen_rejects = list(rejected_corpus()) if c == 0 else []
         decls, cases = make_cases(ctx, g, n, with_corpus=(c == 0))
         count(ctx, decls)
-        d = G.write_crate(f"derive_{ctx.seed}_{c}", "gen_derive", G.derive_main_rs(decls))
-        ok, out, secs = G.cargo_build(d, ctx.log)
+        rejects = {f"reject_{i}": t for i, t in enumerate(ctx.gen_rejects)}
+        for b in list(rejects) + ["gen_derive"]:
+            try:
+                os.remove(G.bin_path(b))
+            except OSError:
+                pass
+        d = G.write_crate(f"derive_{ctx.seed}_{c}", "gen_derive", G.derive_main_rs(decls), {b: reject_rs(t) for b, t in rejects.items()})
+        ok, out, secs = G.cargo_build(d, ctx.log, keep_going=True)
         ctx.count("crate_build_s", int(secs))
-        if not ok:
+        if not os.path.exists(G.bin_path("gen_derive")):
             errs = "\n".join(l for l in out.splitlines() if l.startswith("error"))[:3000]
             ctx.disagreements.append({"what": "the generated crate does not compile: a declaration the model accepts is rejected by the "
                                               "macro / rustc (or the generator is wrong)", "crate": d, "detail": errs})
             return
+        # declarations with a repeated member id must be refused by the macro (property: the ids of every accepted type are distinct)
+        for b, t in rejects.items():
+            ctx.stats["evaluations"] += 1
+            ctx.count("reject-probe")
+            if os.path.exists(G.bin_path(b)):
+                ctx.violations.append({"what": f"{t['ident']}: a declaration with a repeated member id {G.code_ids(t) if t['k'] == 'struct' else ''} "
+                                               "is accepted by the macro (every value of it is lost in the round trip)",
+                                       "ops": [f"decl 0 {G.sx(G.ty_sexp(t))}"]})
+            elif "is already used by another member" not in out:
+                ctx.violations.append({"what": f"{t['ident']}: rejected, but not with the duplicate-member-id diagnostic",
+                                       "ops": [f"decl 0 {G.sx(G.ty_sexp(t))}"]})
         ctx.differential("gen_derive", cases, nontrivial=nontrivial, oracle=oracle, model_engine="gen", shrink=False)
 
 
 LEVEL_TEXT = ("Kernel-checked Lean theorems over ALL declaration trees and ALL values of the model of the macro expansion: "
               "C40_roundtrip (create_sample (create_dynamic_sample v) = v with non_serialized members defaulted, for every well-formed "
-              "declaration), C40_describe_faithful (names, order, key / optional / must-understand flags, extensibility, nested, type name), "
-              "C40_explicit_ids_mutable and C40_sequential_ids (member-id rule), C40_ids_distinct_partial. The full statements "
-              "'explicit ids are respected', 'member ids are distinct' and 'round trip for every accepted declaration' are FALSE for the "
-              "code as it is: Lean counterexamples + replay on the real macro + known findings D-gen-1..6. The model is tied to the real "
-              "proc-macro by compiling a generated crate per run and comparing description and round-trip lines.")
+              "declaration), C40_roundtrip_union (every union with pairwise distinct written labels and at most one default variant, at any "
+              "position), C40_describe_faithful (names, order, key / optional / must-understand flags, extensibility, nested, type name), "
+              "C40_explicit_ids_mutable and C40_sequential_ids (member-id rule), C40_ids_distinct (every accepted struct has pairwise distinct "
+              "member ids), C40_describe_vec_elem. Three defects found by this check were repaired (fixes/D-gen-1, D-gen-4, D-gen-5: repeated "
+              "member ids are a compile error, Vec<i8> element type, default arm emitted last); their old behaviour is kept as Lean "
+              "regression witnesses and as corpus cases. Still FALSE for the code as it is: 'explicit ids are respected' in final/appendable "
+              "types, enumerators published, implicit union labels (known findings D-gen-2, 3, 6, 7). The model is tied to the real "
+              "proc-macro by compiling a generated crate per run and comparing description and round-trip lines; declarations with a "
+              "repeated member id are compiled as separate binaries that must fail with the macro's diagnostic.")
 LEVEL_NOTE = ("Trusted: Lean kernel; Model/Derive.lean (transcription of type_support.rs / attributes.rs / enum_support.rs, the Type and "
               "DataStorageMapping impls, DynamicData set/remove); the crate generator and its prelude (walks DynamicType / DynamicData "
               "through the public API); rustc; Python oracle (documented id rule, Debug printer). Not covered: default_value, "
